@@ -1004,6 +1004,32 @@ RUST_LINK_KINDS = {  # kind -> number of trailing non-module path elements (core
 }
 
 
+def fam_f_cycles(b):
+    """render termini whose owner can only be built through a default constructor that needs the owner's own type: directly, optionally,
+    through a second / third type (demo_gen builds every opaque argument by recursing into default constructors)"""
+    def ctor(name, params, attr="#[diplomat::attr(auto, constructor)]"):
+        return ("%s\n        #[diplomat::demo(default_constructor)]\n        pub fn new(%s) -> Box<%s> { unimplemented!() }" % (
+            attr, ", ".join("%s: %s" % (n, t) for n, t in params), name)).lstrip("\n")
+    for shape in ("self", "self-optional", "self-second-param", "pair", "triple", "pair-named-constructor"):
+        n1, n2, n3 = b.sname("Cy"), b.sname("Cy"), b.sname("Cy")
+        if shape == "self":
+            tys = [tdecl(n1, "opaque", methods=[ctor(n1, [("o", "&" + n1)])])]
+        elif shape == "self-optional":
+            tys = [tdecl(n1, "opaque", methods=[ctor(n1, [("o", "Option<&%s>" % n1)])])]
+        elif shape == "self-second-param":
+            tys = [tdecl(n1, "opaque", methods=[ctor(n1, [("x", "u8"), ("o", "&" + n1)])])]
+        elif shape == "pair":
+            tys = [tdecl(n1, "opaque", methods=[ctor(n1, [("o", "&" + n2)])]), tdecl(n2, "opaque", methods=[ctor(n2, [("o", "&" + n1)])])]
+        elif shape == "triple":
+            tys = [tdecl(n1, "opaque", methods=[ctor(n1, [("o", "&" + n2)])]), tdecl(n2, "opaque", methods=[ctor(n2, [("o", "&" + n3)])]),
+                   tdecl(n3, "opaque", methods=[ctor(n3, [("o", "&" + n1)])])]
+        else:
+            tys = [tdecl(n1, "opaque", methods=[ctor(n1, [("o", "&" + n2)], "#[diplomat::attr(auto, named_constructor)]")]),
+                   tdecl(n2, "opaque", methods=[ctor(n2, [("o", "&" + n1)], "#[diplomat::attr(auto, named_constructor)]")])]
+        b.add("f", types=tys, m=method(b.mname(), owner=n1, selff="&self", params=[("w", WRITE)]), pos="terminus:constructor cycle")
+        b.add("f", types=tys, m=method(b.mname(), params=[("x", ("ref", False, fresh(n1, "opaque"))), ("y", ("ref", False, fresh(n1, "opaque"))), ("w", WRITE)]), pos="terminus:constructor cycle (argument)")
+
+
 def fam_g(b, thorough):
     """documentation: every rust_link item kind x display mode x path depth on a type, a method and an enum variant"""
     for kind, tail in sorted(RUST_LINK_KINDS.items()):
@@ -1028,5 +1054,6 @@ def enumerate_items(tier):
     fam_d(b, thorough)
     fam_e(b, thorough)
     fam_f(b, 3 if thorough else 2)
+    fam_f_cycles(b)
     fam_g(b, thorough)
     return b.items
